@@ -218,7 +218,6 @@ Section Trunc.
   (* phase 2: the segment that holds the truncation point *)
   Let bt := m_base t.
   Let nf := keep_below (m_recs t) o.
-  Let cf := cache_clear_latest c0 o.
 
   Lemma t_in : In t (d_segs d0).
   Proof. rewrite Hshape. apply in_or_app. right. left. reflexivity. Qed.
@@ -245,18 +244,22 @@ Section Trunc.
   Qed.
 
   (* the replaced segment, with the old or the new index, and any cache that fits *)
+  Lemma repl_content fi c x : In x (content (mk (pre ++ [mkM (mkSeg bt nf) (Some fi)]) [] c)) -> In x (content d0) /\ r_off x < o.
+  Proof.
+    intros Hx. unfold content in Hx. cbn [mk d_segs] in Hx. rewrite map_app, concat_app in Hx. cbn [map concat m_recs m_seg s_recs] in Hx. rewrite app_nil_r in Hx.
+    apply in_app_or in Hx. destruct Hx as [Hx|Hx].
+    - apply in_concat in Hx. destruct Hx as (l & Hl & Hx). apply in_map_iff in Hl. destruct Hl as (m & <- & Hm). split; [|apply (pre_below m x Hm Hx)].
+      unfold content. apply in_concat. exists (m_recs m). split; [apply in_map; rewrite Hshape; apply in_or_app; left; exact Hm|exact Hx].
+    - rewrite nf_filter in Hx. apply filter_In in Hx. destruct Hx as [Hx Hlt]. unfold lt_off in Hlt. split; [|lia].
+      unfold content. apply in_concat. exists (m_recs t). split; [apply in_map; apply t_in|exact Hx].
+  Qed.
+
   Lemma repl_image fi c : (fi = m_recs t \/ fi = nf) -> csorted c ->
-    (forall x, In x (content d0) -> r_off x < o -> epoch_at c (r_off x) = r_ep x) ->
+    (forall x, In x (content (mk (pre ++ [mkM (mkSeg bt nf) (Some fi)]) [] c)) -> epoch_at c (r_off x) = r_ep x) ->
     R (mk (pre ++ [mkM (mkSeg bt nf) (Some fi)]) [] c).
   Proof.
     intros Hfi Hcs Hcm.
-    assert (Hc : forall x, In x (content (mk (pre ++ [mkM (mkSeg bt nf) (Some fi)]) [] c)) -> In x (content d0) /\ r_off x < o).
-    { intros x Hx. unfold content in Hx. cbn [mk d_segs] in Hx. rewrite map_app, concat_app in Hx. cbn [map concat m_recs m_seg s_recs] in Hx. rewrite app_nil_r in Hx.
-      apply in_app_or in Hx. destruct Hx as [Hx|Hx].
-      - apply in_concat in Hx. destruct Hx as (l & Hl & Hx). apply in_map_iff in Hl. destruct Hl as (m & <- & Hm). split; [|apply (pre_below m x Hm Hx)].
-        unfold content. apply in_concat. exists (m_recs m). split; [apply in_map; rewrite Hshape; apply in_or_app; left; exact Hm|exact Hx].
-      - rewrite nf_filter in Hx. apply filter_In in Hx. destruct Hx as [Hx Hlt]. unfold lt_off in Hlt. split; [|lia].
-        unfold content. apply in_concat. exists (m_recs t). split; [apply in_map; apply t_in|exact Hx]. }
+    assert (Hc : forall x, In x (content (mk (pre ++ [mkM (mkSeg bt nf) (Some fi)]) [] c)) -> In x (content d0) /\ r_off x < o) by (intros x Hx; apply (repl_content fi c x Hx)).
     split; [|split].
     - split; cbn [mk d_segs d_ep d_hw].
       + intros m Hin. apply in_app_or in Hin. destruct Hin as [Hin|[<-|[]]].
@@ -266,7 +269,7 @@ Section Trunc.
       + unfold segs_of. cbn [mk d_segs]. rewrite map_app. cbn [map m_seg]. pose proof WF_front as Hw. rewrite map_app in Hw. cbn [map] in Hw.
         apply (WF_shrink_last (map m_seg pre) (m_seg t) nf Hw). apply keep_below_subseq.
       + exact Hcs.
-      + intros x Hx. destruct (Hc x Hx) as [A B]. apply Hcm; assumption.
+      + exact Hcm.
       + apply (g_hw _ G).
     - intros x Hx. left. apply (Hc x Hx).
     - intros x Hx HK. unfold content in Hx. apply in_concat in Hx. destruct Hx as (l & Hl & Hx). apply in_map_iff in Hl. destruct Hl as (m & <- & Hm).
@@ -276,35 +279,25 @@ Section Trunc.
       + right. cbn [map concat m_recs m_seg s_recs]. rewrite app_nil_r, nf_filter. apply filter_In. split; [exact Hx|]. unfold lt_off, K in *. lia.
   Qed.
 
-  Lemma c0_match_below x : In x (content d0) -> r_off x < o -> epoch_at c0 (r_off x) = r_ep x.
-  Proof. intros Hx _. apply (g_cmatch _ G). exact Hx. Qed.
-
-  Lemma cf_sorted : csorted cf.
-  Proof. apply clear_latest_sorted. apply (g_csorted _ G). Qed.
-
-  Lemma cf_match_below x : In x (content d0) -> r_off x < o -> epoch_at cf (r_off x) = r_ep x.
+  (* the earlier segments alone (the segment at the truncation point is removed) *)
+  Lemma pre_content orph c x : In x (content (mk pre orph c)) -> In x (content d0) /\ r_off x < o.
   Proof.
-    intros Hx Hlt. apply (clear_latest_match c0 o (filter (lt_off o) (content d0))).
-    - intros y Hy. apply filter_In in Hy. apply (g_cmatch _ G). apply Hy.
-    - intros y Hy. apply filter_In in Hy. destruct Hy as [_ Hy]. unfold lt_off in Hy. lia.
-    - apply filter_In. split; [exact Hx|]. unfold lt_off. lia.
+    intros Hx. unfold content in Hx. cbn [mk d_segs] in Hx. apply in_concat in Hx. destruct Hx as (l & Hl & Hx). apply in_map_iff in Hl. destruct Hl as (m & <- & Hm).
+    split; [|apply (pre_below m x Hm Hx)]. unfold content. apply in_concat. exists (m_recs m). split; [apply in_map; rewrite Hshape; apply in_or_app; left; exact Hm|exact Hx].
   Qed.
 
-  (* the earlier segments alone (the segment at the truncation point is removed) *)
   Lemma pre_image orph c : m_base t = o -> csorted c ->
-    (forall x, In x (content d0) -> r_off x < o -> epoch_at c (r_off x) = r_ep x) -> R (mk pre orph c).
+    (forall x, In x (content (mk pre orph c)) -> epoch_at c (r_off x) = r_ep x) -> R (mk pre orph c).
   Proof.
     intros Hbo Hcs Hcm.
-    assert (Hc : forall x, In x (content (mk pre orph c)) -> In x (content d0) /\ r_off x < o).
-    { intros x Hx. unfold content in Hx. cbn [mk d_segs] in Hx. apply in_concat in Hx. destruct Hx as (l & Hl & Hx). apply in_map_iff in Hl. destruct Hl as (m & <- & Hm).
-      split; [|apply (pre_below m x Hm Hx)]. unfold content. apply in_concat. exists (m_recs m). split; [apply in_map; rewrite Hshape; apply in_or_app; left; exact Hm|exact Hx]. }
+    assert (Hc : forall x, In x (content (mk pre orph c)) -> In x (content d0) /\ r_off x < o) by (intros x Hx; apply (pre_content orph c x Hx)).
     split; [|split].
     - split; cbn [mk d_segs d_ep d_hw].
       + intros m Hin. left. unfold m_fi. rewrite (g_idx _ G m (pre_in m Hin)). reflexivity.
       + unfold segs_of. cbn [mk d_segs]. apply (WF_subseq _ (map m_seg (d_segs d0))); [|apply (g_wf _ G)]. apply subseq_map. rewrite Hshape.
         rewrite <- (app_nil_r pre) at 1. apply subseq_app2. apply subseq_nil.
       + exact Hcs.
-      + intros x Hx. destruct (Hc x Hx). apply Hcm; assumption.
+      + exact Hcm.
       + apply (g_hw _ G).
     - intros x Hx. left. apply (Hc x Hx).
     - intros x Hx HK. unfold content in Hx. apply in_concat in Hx. destruct Hx as (l & Hl & Hx). apply in_map_iff in Hl. destruct Hl as (m & <- & Hm).
@@ -317,51 +310,91 @@ Section Trunc.
   Definition tI : mseg := mkM (mkSeg bt nf) (Some nf).
   Definition final_segs (i : nat) : list mseg := if (m_base t =? o) && negb (Nat.eqb i 0) then pre else pre ++ [tI].
 
-  Lemma trunc_seq i : i = length pre -> find_segment (segs_of d0) o = Some (i, m_seg t) ->
-    seq R (at_ d0) (trunc_effs fixed d0 o) (at_ (mk (final_segs i) [] cf)).
+  (* the log end after the truncation, as the script computes it *)
+  Lemma final_next i : i = length pre -> final_segs i <> [] ->
+    s_next (m_seg (last (final_segs i) dummy_m)) = trunc_next (segs_of d0) i (m_seg t) o.
   Proof.
-    intros Hi Hfind. unfold trunc_effs. rewrite Hfind.
+    intros Hi Hne. unfold final_segs, trunc_next in *. change (s_base (m_seg t)) with (m_base t).
+    destruct ((m_base t =? o) && negb (Nat.eqb i 0)) eqn:Ec.
+    - destruct (exists_last Hne) as (pre' & lastp & E). rewrite E, last_last. unfold segs_of. rewrite Hshape, E.
+      rewrite <- app_assoc. cbn [app]. rewrite map_app. cbn [map]. subst i. rewrite E, app_length. cbn [length].
+      replace (length pre' + 1 - 1)%nat with (length (map m_seg pre')) by (rewrite map_length; lia).
+      rewrite nth_middle. reflexivity.
+    - rewrite last_last. reflexivity.
+  Qed.
+
+  Definition cfin (i : nat) : epoch_cache := cache_clear_latest c0 (Z.min o (trunc_next (segs_of d0) i (m_seg t) o)).
+
+  Lemma trunc_seq i : i = length pre -> find_segment (segs_of d0) o = Some (i, m_seg t) ->
+    seq R (at_ d0) (trunc_effs fixed d0 o) (at_ (mk (final_segs i) [] (cfin i))) /\
+    final_segs i <> [] /\ cbound (cfin i) (s_next (m_seg (last (final_segs i) dummy_m))).
+  Proof.
+    intros Hi Hfind.
+    assert (Hfne : final_segs i <> []).
+    { unfold final_segs. destruct ((m_base t =? o) && negb (Nat.eqb i 0)) eqn:Ec; [|destruct pre; discriminate].
+      apply andb_true_iff in Ec. destruct Ec as [_ Ec]. destruct pre; [|discriminate]. cbn in Hi. subst i. discriminate. }
+    assert (Hcb : cbound (cfin i) (s_next (m_seg (last (final_segs i) dummy_m)))).
+    { rewrite (final_next i Hi Hfne). intros e st Hin. pose proof (clear_latest_bound c0 (Z.min o (trunc_next (segs_of d0) i (m_seg t) o)) (g_csorted _ G) e st Hin). lia. }
+    split; [|split; [exact Hfne|exact Hcb]].
+    unfold trunc_effs. rewrite Hfind.
     assert (Hsk : skipn (S i) (d_segs d0) = later).
     { rewrite Hshape, Hi. replace (pre ++ t :: later) with ((pre ++ [t]) ++ later) by (rewrite <- app_assoc; reflexivity).
       replace (S (length pre)) with (length (pre ++ [t])) by (rewrite app_length; cbn; lia). apply skipn_app_exact. }
     rewrite Hsk.
     assert (Hstart : forall d, at_ d0 d -> at_ (mk (front ++ later) [] c0) d).
     { intros d Hd. eapply meq_trans; [exact Hd|]. repeat split; [apply shape_front|apply (g_orph _ G)]. }
-    apply (seq_conseq R (at_ (mk (front ++ later) [] c0)) _ (at_ (mk (final_segs i) [] cf)) _); [exact Hstart|auto|].
+    apply (seq_conseq R (at_ (mk (front ++ later) [] c0)) _ (at_ (mk (final_segs i) [] (cfin i))) _); [exact Hstart|auto|].
     apply (seq_app R _ _ (at_ (mk front [] c0))); [apply (dels_seq later []); reflexivity|].
     assert (Rfront : R (mk front [] c0)).
     { apply sub_image; [rewrite shape_front; rewrite <- (app_nil_r front) at 1; apply subseq_app2; apply subseq_nil|intros m y Hm Hy HK; apply (keep_in_front m y Hm Hy HK)]. }
     apply (seq_app R _ _ (at_ (mk front [] c0))); [apply seq_point_at; [apply image_main|exact Rfront]|].
     set (mid := mk (final_segs i) [] c0).
-    assert (Rmid : forall c, csorted c -> (forall x, In x (content d0) -> r_off x < o -> epoch_at c (r_off x) = r_ep x) -> R (mk (final_segs i) [] c)).
-    { intros c Hcs Hcm. unfold final_segs. destruct ((m_base t =? o) && negb (Nat.eqb i 0)) eqn:Ec.
+    (* the final segments with a cache that fits them *)
+    assert (Hfincont : forall c x, In x (content (mk (final_segs i) [] c)) -> In x (content d0) /\ r_off x < o).
+    { intros c x Hx. unfold final_segs in Hx. destruct ((m_base t =? o) && negb (Nat.eqb i 0)); [apply (pre_content [] c x Hx)|apply (repl_content nf c x Hx)]. }
+    assert (Rmid : forall c, csorted c -> (forall x, In x (content (mk (final_segs i) [] c)) -> epoch_at c (r_off x) = r_ep x) -> R (mk (final_segs i) [] c)).
+    { intros c Hcs Hcm. unfold final_segs in *. destruct ((m_base t =? o) && negb (Nat.eqb i 0)) eqn:Ec.
       - apply andb_true_iff in Ec. destruct Ec as [Ec _]. apply Z.eqb_eq in Ec. apply pre_image; assumption.
       - apply repl_image; [right; reflexivity|assumption|assumption]. }
+    assert (Hc0fit : forall x, In x (content (mk (final_segs i) [] c0)) -> epoch_at c0 (r_off x) = r_ep x).
+    { intros x Hx. apply (g_cmatch _ G). apply (Hfincont c0 x Hx). }
+    assert (RmidC : R mid) by (apply Rmid; [apply (g_csorted _ G)|exact Hc0fit]).
     apply (seq_app R _ _ (at_ mid)).
     { unfold mid, final_segs. change (s_base (m_seg t)) with (m_base t). destruct ((m_base t =? o) && negb (Nat.eqb i 0)) eqn:Ec.
       - apply andb_true_iff in Ec. destruct Ec as [Ec _]. apply Z.eqb_eq in Ec.
+        assert (Hpc0 : forall orph x, In x (content (mk pre orph c0)) -> epoch_at c0 (r_off x) = r_ep x) by (intros orph x Hx; apply (g_cmatch _ G); apply (pre_content orph c0 x Hx)).
         apply (del_seq R (m_base t) _ (mk pre [(m_base t, m_recs t)] c0)); [apply image_main| | |exact Rfront| |].
         + cbn [mapply mk d_segs d_orph]. unfold front. rewrite seg_get_last by exact pre_ne_t. rewrite t_idx. unfold with_main. cbn [mk d_segs d_scr d_hw d_ep d_orph].
           replace (pre ++ [t]) with (pre ++ t :: []) by reflexivity. rewrite seg_del_mid by exact pre_ne_t. rewrite app_nil_r. apply meq_refl.
         + cbn [mapply mk d_segs d_orph]. assert (Hnone : seg_get pre (m_base t) = None) by (apply seg_get_none_notin; exact pre_ne_t).
           rewrite Hnone. unfold with_main, orph_del. cbn [mk d_segs d_scr d_hw d_ep d_orph filter fst]. rewrite Z.eqb_refl. cbn [negb]. apply meq_refl.
-        + apply pre_image; [exact Ec|apply (g_csorted _ G)|exact c0_match_below].
-        + apply pre_image; [exact Ec|apply (g_csorted _ G)|exact c0_match_below].
-      - apply (replace_seq R image_main (m_base t) STrunc nf PTruncCopy _ (mk (pre ++ [mkM (mkSeg bt nf) (Some (m_recs t))]) [] c0)).
+        + apply pre_image; [exact Ec|apply (g_csorted _ G)|apply Hpc0].
+        + apply pre_image; [exact Ec|apply (g_csorted _ G)|apply Hpc0].
+      - assert (Hrc0 : forall fi x, In x (content (mk (pre ++ [mkM (mkSeg bt nf) (Some fi)]) [] c0)) -> epoch_at c0 (r_off x) = r_ep x) by (intros fi x Hx; apply (g_cmatch _ G); apply (repl_content fi c0 x Hx)).
+        apply (replace_seq R image_main (m_base t) STrunc nf PTruncCopy _ (mk (pre ++ [mkM (mkSeg bt nf) (Some (m_recs t))]) [] c0)).
         + exact Rfront.
-        + apply repl_image; [left; reflexivity|apply (g_csorted _ G)|exact c0_match_below].
-        + apply repl_image; [right; reflexivity|apply (g_csorted _ G)|exact c0_match_below].
+        + apply repl_image; [left; reflexivity|apply (g_csorted _ G)|apply Hrc0].
+        + apply repl_image; [right; reflexivity|apply (g_csorted _ G)|apply Hrc0].
         + cbn [mapply mk d_segs d_orph]. unfold front. rewrite seg_get_last by exact pre_ne_t. unfold set_segs. cbn [mk d_segs d_scr d_hw d_ep d_orph].
           rewrite seg_upd_last by exact pre_ne_t. rewrite t_idx. apply meq_refl.
         + cbn [mapply mk d_segs d_orph]. change (m_base t) with (m_base (mkM (mkSeg bt nf) (Some (m_recs t)))).
           rewrite seg_get_last by exact pre_ne_t. unfold set_segs. cbn [mk d_segs d_scr d_hw d_ep d_orph].
           rewrite seg_upd_last by exact pre_ne_t. apply meq_refl. }
-    assert (RmidC : R mid) by (apply Rmid; [apply (g_csorted _ G)|exact c0_match_below]).
     apply (seq_app R _ _ (at_ mid)); [apply seq_point_at; [apply image_main|exact RmidC]|].
-    assert (Ecf : cf = if cache_latest_off c0 <? o then c0 else filter (fun e : N * Z => snd e <? o) c0) by reflexivity.
-    fold c0. destruct (cache_latest_off c0 <? o) eqn:El.
+    (* the epoch checkpoint *)
+    assert (Hbelow_next : forall x, In x (content (mk (final_segs i) [] c0)) -> r_off x < trunc_next (segs_of d0) i (m_seg t) o).
+    { intros x Hx. rewrite <- (final_next i Hi Hfne). destruct RmidC as (M & _ & _). pose proof (mi_wf _ _ M) as Hw. unfold segs_of, mid in Hw. cbn [mk d_segs] in Hw.
+      destruct (exists_last Hfne) as (fl & fx & Ef). rewrite Ef, last_last. rewrite Ef, map_app in Hw. cbn [map] in Hw. apply (WF_all_below_next _ _ Hw).
+      unfold content in Hx. cbn [mk d_segs] in Hx. rewrite Ef in Hx. unfold flat. change [m_seg fx] with (map m_seg [fx]). rewrite <- map_app, map_map. exact Hx. }
+    assert (Hcfit : forall x, In x (content (mk (final_segs i) [] (cfin i))) -> epoch_at (cfin i) (r_off x) = r_ep x).
+    { intros x Hx. change (content (mk (final_segs i) [] (cfin i))) with (content (mk (final_segs i) [] c0)) in Hx.
+      apply (clear_latest_match c0 _ (content (mk (final_segs i) [] c0))); [exact Hc0fit| |exact Hx].
+      intros y Hy. pose proof (Hbelow_next y Hy). destruct (Hfincont c0 y Hy). lia. }
+    assert (RF : R (mk (final_segs i) [] (cfin i))) by (apply Rmid; [apply clear_latest_sorted; apply (g_csorted _ G)|exact Hcfit]).
+    fold c0. cbv zeta. fold (cfin i).
+    assert (Ecf : cfin i = if cache_latest_off c0 <? Z.min o (trunc_next (segs_of d0) i (m_seg t) o) then c0 else filter (fun e : N * Z => snd e <? Z.min o (trunc_next (segs_of d0) i (m_seg t) o)) c0) by reflexivity.
+    destruct (cache_latest_off c0 <? Z.min o (trunc_next (segs_of d0) i (m_seg t) o)) eqn:El.
     - rewrite Ecf. apply seq_nil. intros d Hd. apply (image_main mid d (meq_sym _ _ Hd) RmidC).
-    - apply (seq_main R _ (MEpochs (cache_clear_latest c0 o))); [apply image_main|reflexivity|apply meq_refl|exact RmidC|].
-      apply Rmid; [exact cf_sorted|exact cf_match_below].
+    - apply (seq_main R _ (MEpochs (cfin i))); [apply image_main|reflexivity|apply meq_refl|exact RmidC|exact RF].
   Qed.
 End Trunc.
